@@ -28,6 +28,8 @@ From MV Require Import Base.Prelude Base.SortFacts.
 Local Open Scope N_scope.
 
 Definition USIZE_MAX : N := 2 ^ 64 - 1.
+Definition I64_MAX : Z := (2 ^ 63 - 1)%Z.
+Definition I64_MIN : Z := (- 2 ^ 63)%Z.
 
 (* error kinds of the outcome *)
 Definition E_CURSOR_NOT_INT : N := 1.
@@ -65,18 +67,18 @@ Definition cursor_of (n : N) : cursor := Some (TInt n false).
 Definition DOC_LIMIT_FACTOR : N := 4.
 Definition DOC_LIMIT_FLOOR : N := 20.
 
-(* let base_docs = request.top_k.max(1) + offset_hint;            (checked add: debug panics)
+(* let base_docs = request.top_k.max(1).saturating_add(offset_hint);
    let mut doc_limit = base_docs.saturating_mul(4).max(20);
-   if let Some(filter) = candidate_filter { doc_limit = doc_limit.min(filter.len().max(1)) } *)
+   if let Some(filter) = candidate_filter { doc_limit = doc_limit.min(filter.len().max(1)) }
+   (since /repo 9b4da04 the add saturates; before it was unchecked and the debug build
+   panicked above usize::MAX.  The result type stays `outcome N`; the value is always Ok.) *)
 Definition doc_limit (top_k hint : N) (flt : option N) : outcome N :=
-  let base := N.max top_k 1 + hint in
-  if USIZE_MAX <? base then Panic 1
-  else
-    let l := N.max (N.min (base * DOC_LIMIT_FACTOR) USIZE_MAX) DOC_LIMIT_FLOOR in
-    Ok (match flt with
-        | Some f => N.min l (N.max f 1)
-        | None => l
-        end).
+  let base := N.min (N.max top_k 1 + hint) USIZE_MAX in
+  let l := N.max (N.min (base * DOC_LIMIT_FACTOR) USIZE_MAX) DOC_LIMIT_FLOOR in
+  Ok (match flt with
+      | Some f => N.min l (N.max f 1)
+      | None => l
+      end).
 
 (* ---------- evaluated documents and hits ---------- *)
 Record edoc := mkEdoc {
@@ -237,7 +239,9 @@ Section EndToEnd.
     | d :: r => fold_left (fun m x => Z.max m (e_ts x)) r (e_ts d)
     end.
 
-  Definition resort_key (mts : Z) (d : edoc) : N := combined (e_score d) (Z.max (mts - e_ts d) 0).
+  (* age_seconds = max_ts.saturating_sub(timestamp).max(0) as f32   (i64 saturation, /repo 9b4da04) *)
+  Definition resort_key (mts : Z) (d : edoc) : N :=
+    combined (e_score d) (Z.max (Z.max I64_MIN (Z.min (mts - e_ts d) I64_MAX)) 0).
 
   (* if evaluated.len() > 1 {
        let mut with_scores: Vec<(f32, _)> = evaluated.into_iter().map(|item| (combined_score, item)).collect();
@@ -274,13 +278,14 @@ Section EndToEnd.
     end.
 
   (* try_tantivy_search from `offset_hint` on.  `cands` = the engine's ranking for this
-     query and filter; the request sees `firstn doc_limit` (engine: limit.max(1)). *)
+     query and filter; the request sees `firstn doc_limit` (engine: limit.min(num_docs).max(1),
+     and the ranking never holds more than num_docs entries: written as min with len cands). *)
   Definition e2e_search (has_lex : bool) (flt : option N) (cands : list cand)
              (top_k : N) (c : cursor) : outcome (option page) :=
     match doc_limit top_k (offset_hint c) flt with
     | Err e => Err e
     | Panic s => Panic s
-    | Ok limit => after_engine has_lex (firstn (N.to_nat (N.max limit 1)) cands) top_k c
+    | Ok limit => after_engine has_lex (firstn (N.to_nat (N.min (N.max limit 1) (len cands))) cands) top_k c
     end.
 
   Definition e2e_page (has_lex : bool) (flt : option N) (cands : list cand)
